@@ -16,17 +16,24 @@ TECHNIQUE = 'property-based testing (Hypothesis): generated models, no-idle / no
 LEVEL_TEXT = 'Generated-input search with invariants evaluated on the end-of-allocation state of every working step (sound because allocation lists only grow during the pass); not a proof.'
 LEVEL_NOTE = 'Trusts the step observer; eligibility predicate shared with C04; pair clause only for flat products and single-task components, as the property states.'
 
-CFG = gen.Cfg(facilities=True, max_workers=5, max_time=[40, 80], kinds=[0, 0, 1, 2, 3], inputs=False)
+CFG = gen.Cfg(facilities=True, max_workers=5, max_time=[40, 80], kinds=[0, 0, 1, 2, 3], inputs=False, abs_p=2, abs_size=6,
+              abs_max=12, max_deps_factor=3)
+
+
+CFG_PAIRS = CFG.copy(max_wps=2, max_facs_per_wp=3, min_tasks=3, max_tasks=6, max_workers=4)
 
 
 def strategy(tier):
+    from hypothesis import strategies as st
+
     cfg = CFG if tier == "quick" else CFG.copy(max_tasks=12, max_workers=8)
-    return gen.model_spec(cfg)
+    pairs = CFG_PAIRS if tier == "quick" else CFG_PAIRS.copy(max_tasks=9, max_workers=6)
+    return st.one_of(gen.model_spec(cfg), gen.model_spec(cfg), gen.model_spec(pairs).map(gen.single_task_components))
 
 
 def budget(tier):
     if tier == "quick":
-        return {"cases": 2000, "shards": 4}
+        return {"cases": 3000, "shards": 6}
     return {"cases": 150000, "shards": 16}
 
 
